@@ -48,6 +48,7 @@ def cases(tier, seed):
         base = {'size_in': sin, 'size_out': sout, 'rank': [1] + [2] * (d - 1) + [1], 'batch': [2], 'dtype': 'float64', 'call': True}
         for init in ('He', 'Glo'):
             cs.append({'scen': 'tt_layer', 's': dict(base, init=init, mode='deepcopy')})
+            cs.append({'scen': 'tt_layer', 's': dict(base, init=init, ctor='tuples')})
             for ctor in ('positional', 'positional_dtype'):
                 for dt in ('float64', 'float32'):
                     cs.append({'scen': 'tt_layer', 's': dict(base, init=init, ctor=ctor, dtype=dt)})
